@@ -764,6 +764,142 @@ class NumpyProxy:
         cplx = any(isinstance(t, Sym) and t.p.has_I() for t in np.array(y, dtype=object).flat)
         return SymArray(np.array(y, dtype=object), C128 if cplx else F64)
 
+
+# ---------------------------------------------------------------------------------------
+# symmetric eigen-problems (xeofs.multi.cca)
+
+
+@implements(np.linalg.eigvalsh)
+def _np_eigvalsh(A, UPLO="L"):
+    """ascending eigenvalues of a Hermitian matrix: fresh symbols with  sum(w) == trace(A)  and ordering;
+    with the configuration assumption 'hermitian_psd_inputs' additionally  w_min >= 0"""
+    c = cur()
+    Ao = obj(A)
+    n = Ao.shape[0]
+    cache = c.caches.setdefault("eigvalsh", {})
+    key = _key(A)
+    if key in cache:
+        return cache[key].copy()
+    A0 = witness_or_none(A)
+    w0 = _safe(np.linalg.eigvalsh, A0) if A0 is not None else None
+    if w0 is None:
+        c.on_witness = False
+    w = sym_array((n,), f"ev{len(cache)}", False, w0, kind="stub")
+    wo = obj(w)
+    tr = Sym.of(0)
+    sw = Sym.of(0)
+    for i in range(n):
+        tr = tr + Ao[i, i]
+        sw = sw + wo[i]
+    c.assume("eq", (sw - tr).p.real(), "eigvalsh: sum of eigenvalues == trace")
+    for i in range(n - 1):
+        c.assume("ge", (wo[i + 1] - wo[i]).p, "eigvalsh: ascending")
+    if c.options.get("eigvalsh_psd"):
+        c.assume("ge", wo[0].p, "eigvalsh: PSD input [configuration assumption]")
+    c.stub_log.append({"stub": "np.linalg.eigvalsh", "shape": [n, n]})
+    cache[key] = w.copy()
+    return w
+
+
+def eigh_stub(a, b=None, subset_by_index=None, **kw):
+    """scipy.linalg.eigh(a, b, subset_by_index=[lo, hi]): generalised symmetric-definite problem
+    a Z = b Z diag(w),  Z^T b Z = I,  w ascending (the selected sub-range)"""
+    from scipy.linalg import eigh as real_eigh
+
+    if not isinstance(a, SymArray) and not isinstance(b, SymArray):
+        return real_eigh(a, b, subset_by_index=subset_by_index, **kw)
+    c = cur()
+    Ao = obj(a)
+    p = Ao.shape[0]
+    Bo = obj(b) if b is not None else None
+    lo, hi = (0, p - 1) if subset_by_index is None else subset_by_index
+    k = hi - lo + 1
+    a0 = witness_or_none(a)
+    b0 = witness_or_none(b) if b is not None else None
+    r0 = _safe(real_eigh, a0, b0, subset_by_index=subset_by_index) if a0 is not None and (b is None or b0 is not None) else None
+    if r0 is None:
+        c.on_witness = False
+        w0 = Z0 = None
+    else:
+        w0, Z0 = r0
+    idn = len(c.caches.setdefault("eigh", {}))
+    c.caches["eigh"][idn] = True
+    a_al = alias_entries(a, "eigh")
+    b_al = alias_entries(b, "eigh") if b is not None else None
+    Ao = obj(a_al)
+    Bo = obj(b_al) if b is not None else None
+    w = sym_array((k,), f"gw{idn}", False, w0, kind="stub")
+    Z = sym_array((p, k), f"gz{idn}", False, Z0, kind="stub")
+    wo, Zo = obj(w), obj(Z)
+    for i in range(p):
+        for m_ in range(k):
+            lhs = Sym.of(0)
+            rhs = Sym.of(0)
+            for j in range(p):
+                lhs = lhs + Ao[i, j] * Zo[j, m_]
+                rhs = rhs + (Bo[i, j] if Bo is not None else (1 if i == j else 0)) * Zo[j, m_]
+            c.assume("eq", (lhs - rhs * wo[m_]).p, f"eigh#{idn}: a Z = b Z diag(w)")
+    for m1 in range(k):
+        for m2 in range(m1, k):
+            t = Sym.of(0)
+            for i in range(p):
+                for j in range(p):
+                    t = t + Zo[i, m1] * (Bo[i, j] if Bo is not None else (1 if i == j else 0)) * Zo[j, m2]
+            c.assume("eq", (t - (1 if m1 == m2 else 0)).p, f"eigh#{idn}: Z^T b Z = I")
+    for m_ in range(k - 1):
+        c.assume("ge", (wo[m_ + 1] - wo[m_]).p, f"eigh#{idn}: ascending")
+    c.stub_log.append({"stub": "scipy.linalg.eigh", "shape": [p, p], "subset": [lo, hi]})
+    return w, Z
+
+
+# ---------------------------------------------------------------------------------------
+# np.vectorize (used by xarray.apply_ufunc(vectorize=True)) converts its arguments with asanyarray: loop here instead
+
+
+_REAL_VECTORIZE = np.vectorize
+
+
+class SymVectorize:
+    def __init__(self, pyfunc, otypes=None, doc=None, excluded=None, cache=False, signature=None):
+        self.pyfunc, self.signature = pyfunc, signature
+        self._real = _REAL_VECTORIZE(pyfunc, otypes=otypes, doc=doc, excluded=excluded, cache=cache, signature=signature)
+
+    def __call__(self, *args, **kwargs):
+        if not any(isinstance(a, SymArray) for a in args):
+            return self._real(*args, **kwargs)
+        if self.signature is None:
+            raise EngineError("np.vectorize without signature on symbolic data")
+        ins, outs = self.signature.split("->")
+        in_core = [len([x for x in t.strip("()").split(",") if x]) for t in ins.split("),") if True]
+        in_core = [len([x for x in t.replace("(", "").replace(")", "").split(",") if x.strip()]) for t in ins.replace(" ", "").split("),")]
+        n_out = len([t for t in outs.replace(" ", "").split("),")])
+        arrs = [a if isinstance(a, SymArray) else np.asarray(a) for a in args]
+        loop_shapes = [a.shape[: a.ndim - nc] for a, nc in zip(arrs, in_core)]
+        loop = np.broadcast_shapes(*loop_shapes) if loop_shapes else ()
+        results = {}
+        for idx in np.ndindex(*loop):
+            call = []
+            for a, nc, ls in zip(arrs, in_core, loop_shapes):
+                ii = tuple(i if s != 1 else 0 for i, s in zip(idx[len(loop) - len(ls):], ls))
+                call.append(a[ii] if ii else a)
+            results[idx] = self.pyfunc(*call, **kwargs)
+        if not loop:
+            r = results[()]
+            return r
+        first = results[next(iter(results))]
+        if n_out == 1:
+            fo = obj(first) if isinstance(first, (SymArray, np.ndarray)) else None
+            shape = loop + (fo.shape if fo is not None else ())
+            out = np.empty(shape, dtype=object)
+            for idx, r in results.items():
+                out[idx] = obj(r) if isinstance(r, (SymArray, np.ndarray)) else (r.a[()] if isinstance(r, SymArray) else r)
+            for idx in np.ndindex(*shape):
+                v = out[idx]
+                if isinstance(v, SymArray):
+                    out[idx] = v.a[()]
+            return wrap(out)
+        raise EngineError("np.vectorize with several outputs on symbolic data")
+
 # ---------------------------------------------------------------------------------------
 # installation: module-attribute patches for names that xeofs modules imported directly
 
@@ -828,6 +964,13 @@ def installed(promax=True):
             patch(importlib.import_module(modname), "get_deterministic_sign_multiplier", sign_multiplier_stub)
         except Exception:
             pass
+    patch(np, "vectorize", SymVectorize)
+    try:
+        import xeofs.multi.cca as mcca
+
+        patch(mcca, "eigh", eigh_stub)
+    except Exception:
+        pass
     try:
         import xeofs.single.pop as popmod
 
